@@ -317,6 +317,7 @@ type ProgChecks struct {
 func NewRunner(p *Prog) *Runner {
 	r := &Runner{P: p, St: stor.New(), M: kvmap{}, Stats: map[string]int{}, tableCache: map[string][]leveldb.VerifEntry{}}
 	r.O = p.Opts.Options()
+	r.St.ListOrder = len(p.Ops) % 3 // Storage.List promises no order
 	if p.SlowTableCreateMs > 0 {
 		ms := p.SlowTableCreateMs
 		r.St.Delay = func(k stor.Kind, fd storage.FileDesc) int {
